@@ -11,6 +11,7 @@ import (
 
 	"github.com/bronlabs/bron-crypto/pkg/base"
 	"github.com/bronlabs/bron-crypto/pkg/base/nt/num"
+	"github.com/bronlabs/bron-crypto/pkg/base/serde"
 	"github.com/bronlabs/bron-crypto/pkg/base/utils"
 	"github.com/bronlabs/bron-crypto/pkg/base/utils/sliceutils"
 	"github.com/bronlabs/bron-crypto/pkg/encryption"
@@ -26,6 +27,28 @@ const Name = "PaillierRange"
 type Witness struct {
 	X *paillier.Plaintext
 	R *paillier.Nonce
+}
+
+type witnessDTO struct {
+	X *paillier.Plaintext
+	R *paillier.Nonce
+}
+
+// UnmarshalCBOR deserialises a witness and rejects missing components.
+func (w *Witness) UnmarshalCBOR(data []byte) error {
+	dto, err := serde.UnmarshalCBOR[*witnessDTO](data)
+	if err != nil {
+		return errs.Wrap(err).WithMessage("cannot unmarshal witness")
+	}
+	if dto == nil {
+		return proofs.ErrInvalidArgument.WithMessage("witness is nil")
+	}
+	ww, err := NewWitness(dto.X, dto.R)
+	if err != nil {
+		return errs.Wrap(err).WithMessage("invalid witness")
+	}
+	*w = *ww
+	return nil
 }
 
 // Bytes serialises the witness for transcript binding.
@@ -54,6 +77,27 @@ func NewWitness(x *paillier.Plaintext, r *paillier.Nonce) (*Witness, error) {
 // Statement defines the public inputs for the range proof.
 type Statement struct {
 	C *paillier.Ciphertext
+}
+
+type statementDTO struct {
+	C *paillier.Ciphertext
+}
+
+// UnmarshalCBOR deserialises a statement and rejects a missing ciphertext.
+func (s *Statement) UnmarshalCBOR(data []byte) error {
+	dto, err := serde.UnmarshalCBOR[*statementDTO](data)
+	if err != nil {
+		return errs.Wrap(err).WithMessage("cannot unmarshal statement")
+	}
+	if dto == nil {
+		return proofs.ErrInvalidArgument.WithMessage("statement is nil")
+	}
+	ss, err := NewStatement(dto.C)
+	if err != nil {
+		return errs.Wrap(err).WithMessage("invalid statement")
+	}
+	*s = *ss
+	return nil
 }
 
 // Bytes serialises the statement for transcript binding.
